@@ -529,6 +529,42 @@ pub fn fam_hw<C: Checker>(
                 d3.extend(std::iter::repeat(maxd).take(400));
                 c.check(&spell.plain(&d3, q - 400));
             }
+            // halfway as a long integer part (zero-padded to just below / at / above the digit caps
+            // of the big-integer path: 114 digits for f32, 769 for f64) followed by a fraction that
+            // is zero (tie), tiny (above) or, for halfway - 1 unit, all max digits (below)
+            {
+                let n0 = ds.len();
+                let dn_digits = if big.is_zero() { None } else { Some(big.sub(&Big::from_u64(1)).to_digits(spell.radix)) };
+                for total in [n0 + 1, 113, 114, 115, 120, 768, 769, 770, 800] {
+                    if total <= n0 {
+                        continue;
+                    }
+                    let p = total - n0;
+                    let tail = |frac: &[u8]| {
+                        let mut t: Vec<u8> = Vec::with_capacity(16);
+                        t.push(b'.');
+                        t.extend_from_slice(frac);
+                        t.push(spell.exp_char);
+                        t.extend(spell.exp_str(q - p as i64));
+                        t
+                    };
+                    let mut base = ds.clone();
+                    base.extend(std::iter::repeat(b'0').take(p));
+                    for frac in [&b"0"[..], b"0001"] {
+                        let mut t = base.clone();
+                        t.extend(tail(frac));
+                        c.check(&t);
+                    }
+                    if let Some(dd) = &dn_digits {
+                        if dd.len() == n0 {
+                            let mut t = dd.clone();
+                            t.extend(std::iter::repeat(maxd).take(p));
+                            t.extend(tail(&[maxd]));
+                            c.check(&t);
+                        }
+                    }
+                }
+            }
             // truncations to k digits, with and without a trailing 1
             let n = ds.len();
             let mut ks: Vec<usize> = vec![15, 16, 17, 18, 19, 20, 21, 22, 38, 39, 40];
